@@ -887,6 +887,16 @@ package server
 //@   loop 1 invariant 0 - 1 <= rangeindex && rangeindex <= len(transactions) - 1 && count == pcount(transactions, rangeindex + 1, payee)
 //@   loop 1 decreases len(transactions) - rangeindex
 
+// The posting count shown when hovering an account: the postings of the tree's transactions that name the account.
+//@ func countPostingsForAccountInTransactions
+//@   props C20
+//@   effects none
+//@   ensures [C20:posting_count] result == cntTxAcc(transactions, len(transactions), accountName)
+//@   loop 1 invariant 0 - 1 <= rangeindex && rangeindex <= len(transactions) - 1 && count == cntTxAcc(transactions, rangeindex + 1, accountName)
+//@   loop 1 decreases len(transactions) - rangeindex
+//@   loop 2 invariant 0 <= i && i < len(transactions) && 0 - 1 <= rangeindex && rangeindex <= len(transactions[i].Postings) - 1 && count == cntTxAcc(transactions, i, accountName) + cntAcc(transactions[i].Postings, rangeindex + 1, accountName)
+//@   loop 2 decreases len(transactions[i].Postings) - rangeindex
+
 // ---- C16 / C15: candidate lists of completion ----
 // The candidates in account context: the accounts indexed under the typed parent prefix; when the prefix is not a key of
 // the index (it is cut heuristically at the last blank) every account stays a candidate, so that every existing name
